@@ -141,7 +141,11 @@ func newKV(kind, dir string) (sorted.KeyValue, func(), error) {
 	case "", "memory":
 		return sorted.NewMemoryKeyValue(), func() {}, nil
 	}
-	env := &sto.Env{Dir: dir}
+	d, err := os.MkdirTemp(dir, "kv")
+	if err != nil {
+		return nil, nil, err
+	}
+	env := &sto.Env{Dir: d}
 	conf, _, err := env.KVConf(kind, "c05")
 	if err != nil {
 		return nil, nil, err
@@ -150,7 +154,7 @@ func newKV(kind, dir string) (sorted.KeyValue, func(), error) {
 	if err != nil {
 		return nil, nil, err
 	}
-	return kv, func() { kv.Close() }, nil
+	return kv, func() { kv.Close(); os.RemoveAll(d) }, nil
 }
 
 // reindexDump builds the index by a full Reindex() from a blob source holding the whole set.
